@@ -717,8 +717,11 @@ func (am *AllocatorManager) getOrCreateLocalTSOSuffix(dcLocation string) (int32,
 	localTSOSuffixKey := am.GetLocalTSOSuffixPath(dcLocation)
 	// The Local TSO suffix is determined by the joining order of this dc-location.
 	localTSOSuffixValue := strconv.FormatInt(int64(maxSuffix), 10)
-	txnResp, err := kv.NewSlowLogTxn(am.member.Client()).
-		If(clientv3.Compare(clientv3.CreateRevision(localTSOSuffixKey), "=", 0)).
+	// Only the current PD leader may assign a suffix: a member that lost the leadership after it
+	// read the suffixes above could otherwise give this dc-location a suffix that the new leader
+	// has just given to another one.
+	txnResp, err := am.member.GetLeadership().
+		LeaderTxn(clientv3.Compare(clientv3.CreateRevision(localTSOSuffixKey), "=", 0)).
 		Then(clientv3.OpPut(localTSOSuffixKey, localTSOSuffixValue)).
 		Commit()
 	if err != nil {
